@@ -1021,6 +1021,53 @@ fn run_bus_script(out: &mut TraceOut, desc: &[(u16, PageFlipStyle)], msgs: Vec<M
     steps
 }
 
+/// Like run_bus_script for very long scripts and large populations: a step that left every sign as it was and that the
+/// Rust-side evaluation of the C14 relations (isolation_violation, the same relations as Trace_Monitor!Isolation) finds in
+/// order is summarised (every `keep`-th such step is still written out in full); every other step - any step that changes
+/// a sign and any step the relations object to - is written out in full, so the verdict stays with TLC's monitor.
+fn run_bus_script_sparse(out: &mut TraceOut, desc: &[(u16, PageFlipStyle)], msgs: impl Iterator<Item = Message<'static>>, keep: usize) -> usize {
+    let n = desc.len();
+    let addrs: Vec<u16> = desc.iter().map(|d| d.0).collect();
+    let mut bus = VirtualSignBus::new(desc.iter().map(|(a, f)| VirtualSign::new(Address(*a), *f)).collect::<Vec<_>>());
+    out.emit(json!({"e": "busreset", "signs": desc.iter().map(|(a, f)| json!({"addr": a, "flip": flip_name(*f)})).collect::<Vec<_>>()}));
+    let mut steps = 0;
+    let mut quiet = 0usize;
+    let mut before = bus_obs(&bus, n);
+    for m in msgs {
+        let solo: Vec<(Value, Value)> = (0..n)
+            .map(|i| {
+                let mut c = bus.sign(i).clone();
+                let (r, fine) = apply(&mut c, &m);
+                (r, if fine { obs(&c) } else { json!({"st": "Panic", "typ": "None", "pages": []}) })
+            })
+            .collect();
+        let r = catch(|| bus.process_message(m.clone()));
+        steps += 1;
+        match r {
+            Ok(Ok(reply)) => {
+                let after = bus_obs(&bus, n);
+                let rj = j::reply(&reply);
+                let (b, a2) = (before.as_array().unwrap(), after.as_array().unwrap());
+                let fine = after == before && isolation_violation(&addrs, &m, b, &rj, a2, &solo).is_none();
+                if fine {
+                    quiet += 1;
+                }
+                if !fine || quiet % keep == 1 {
+                    out.emit(json!({"e": "busstep", "m": j::msg(&m), "r": rj, "before": before, "obs": after,
+                                    "solo": solo.iter().map(|s| s.0.clone()).collect::<Vec<_>>(),
+                                    "soloobs": solo.iter().map(|s| s.1.clone()).collect::<Vec<_>>()}));
+                }
+                before = after;
+            }
+            _ => {
+                out.emit(json!({"e": "busstep", "m": j::msg(&m), "r": panic_reply(), "obs": []}));
+                break;
+            }
+        }
+    }
+    steps
+}
+
 /// Directed bus histories for C14: two signs mid-transfer at once with a very long chunk stream; address pairs that
 /// differ in one bit; every addressed kind sent to the single-bit neighbours of a present address.
 fn record_bus_directed(out: &mut TraceOut, thorough: bool) -> Value {
@@ -1147,6 +1194,84 @@ fn record_bus_directed(out: &mut TraceOut, thorough: bool) -> Value {
                 }
             }
             steps += run_bus_script(out, &desc, v);
+        }
+    }
+    // (3) address arithmetic: bus-level routing state keyed by (a hash or a residue of) the address.  (3a) a discovery sweep -
+    // a greeting to every one of the 65 536 addresses, upwards and then queries downwards - over a bus whose signs are blank,
+    // configured and in the middle of a transfer; every present sign is spoken to again after each sweep
+    {
+        out.balance();
+        let desc = [(5u16, PageFlipStyle::Manual), (9, PageFlipStyle::Automatic), (0x1234, PageFlipStyle::Manual), (0xFFFE, PageFlipStyle::Automatic)];
+        let mut v: Vec<Message<'static>> = cfg(9);
+        v.push(sd(0, &[1, 16, 0, 0, 0, 0, 0, 0, 0, 0, 0, 0, 255, 255, 255, 255]));
+        v.push(Message::DataChunksSent(ChunkCount(1)));
+        v.extend(cfg(0x1234));
+        let present = |v: &mut Vec<Message<'static>>| {
+            for a in [5u16, 9, 0x1234, 0xFFFE] {
+                v.push(Message::QueryState(Address(a)));
+                v.push(Message::Hello(Address(a)));
+                v.push(Message::RequestOperation(Address(a), Operation::LoadNextPage));
+            }
+        };
+        let step = 1usize;
+        v.extend((0..=0xFFFFu16).step_by(step).map(|a| Message::Hello(Address(a))));
+        present(&mut v);
+        v.extend((0..=0xFFFFu16).rev().step_by(step).map(|a| Message::QueryState(Address(a))));
+        present(&mut v);
+        v.extend((0..=0xFFFFu16).step_by(step).map(|a| Message::RequestOperation(Address(a), Operation::ShowLoadedPage)));
+        present(&mut v);
+        v.push(sd(0, &[2, 16, 0, 0, 0, 0, 0, 0, 0, 0, 0, 0, 255, 255, 255, 255]));
+        v.push(Message::DataChunksSent(ChunkCount(1)));
+        present(&mut v);
+        steps += run_bus_script_sparse(out, &desc, v.into_iter(), 9973);
+    }
+    // (3b) populous buses: 48 (and a few times 300) signs at pseudo-random distinct addresses and at arithmetic progressions
+    // of various strides; every sign is greeted, asked to take a configuration and queried, interleaved with absent addresses
+    {
+        let mut x: u32 = 0x2545_F491;
+        let mut next = || {
+            x ^= x << 13;
+            x ^= x >> 17;
+            x ^= x << 5;
+            x
+        };
+        let mut pops: Vec<Vec<u16>> = vec![];
+        for k in 0..(if thorough { 120 } else { 30 }) {
+            let size = if k % 15 == 14 { 300 } else { 48 };
+            let mut set = std::collections::BTreeSet::new();
+            while set.len() < size {
+                set.insert((next() >> 7) as u16);
+            }
+            let mut p: Vec<u16> = set.into_iter().collect();
+            // bus order is not address order
+            p.rotate_left((next() as usize) % size);
+            if k % 2 == 1 {
+                p.reverse();
+            }
+            pops.push(p);
+        }
+        for (base, stride) in [(0u16, 1u16), (6, 233), (1, 255), (0, 256), (3, 257), (5, 1024), (5, 4093), (7, 4096), (0x10, 251), (2, 509), (9, 1021), (1, 65)] {
+            pops.push((0..48u16).map(|i| base.wrapping_add(i.wrapping_mul(stride))).collect::<std::collections::BTreeSet<_>>().into_iter().collect());
+        }
+        for p in pops {
+            out.balance();
+            let desc: Vec<(u16, PageFlipStyle)> = p.iter().enumerate().map(|(i, a)| (*a, if i % 2 == 0 { PageFlipStyle::Manual } else { PageFlipStyle::Automatic })).collect();
+            let mut v: Vec<Message<'static>> = vec![];
+            for a in &p {
+                v.push(Message::Hello(Address(*a)));
+                if !p.contains(&a.wrapping_add(1)) {
+                    v.push(Message::Hello(Address(a.wrapping_add(1))));
+                }
+            }
+            for (i, a) in p.iter().enumerate() {
+                if i % 4 == 0 {
+                    v.push(Message::RequestOperation(Address(*a), Operation::ReceiveConfig));
+                    v.push(Message::RequestOperation(Address(*a), Operation::StartReset));
+                    v.push(Message::RequestOperation(Address(*a), Operation::FinishReset));
+                }
+                v.push(Message::QueryState(Address(*a)));
+            }
+            steps += run_bus_script_sparse(out, &desc, v.into_iter(), 37);
         }
     }
     json!({"directed_bus_steps": steps})
